@@ -121,8 +121,9 @@ int main(void){
       else printf("?%s", op);
       fflush(stdout);
     }
-    printf("\n"); fflush(stdout);
+    /* the objects are destroyed BEFORE the line is terminated: a stop in here belongs to this history */
     if(T){ int i; bufr_free_tables(T); T = NULL; for(i = 0; i < nothers; i++) bufr_free_tables(others[i]); nothers = 0; }
+    printf("\n"); fflush(stdout);
   }
   return 0;
 }
